@@ -240,3 +240,25 @@ func TestWitnessNestedSelectorOnTypedStruct(t *testing.T) {
 }
 
 var _ = context.Background
+
+// A record saved through an interface with AlwaysSetRelativateExpiry was stored
+// without an expiry time the first time (the option was applied after the
+// metadata had been updated) and got one only when it was saved again.
+func TestRegAlwaysRelativeExpiryOnFirstSave(t *testing.T) {
+	for _, be := range []backend{beHashmap, beBBolt, beFSTree} {
+		s := newScript(t, be, false, database.Options{AlwaysSetRelativateExpiry: 3600})
+		before := nowUnix()
+		s.put("a", content{S: "x"})
+		after := nowUnix()
+		r, err := s.db.Get(s.h.name + ":a")
+		if err != nil {
+			t.Fatalf("%s: Get: %v", be, err)
+		}
+		r.Lock()
+		exp := r.Meta().Expires
+		r.Unlock()
+		if exp < before+3600 || exp > after+3600 {
+			t.Fatalf("%s: a record saved once through an interface with AlwaysSetRelativateExpiry=3600 has Expires=%d, want %d..%d", be, exp, before+3600, after+3600)
+		}
+	}
+}
